@@ -16,13 +16,15 @@
      - session duplicates / unknown sessions / register / unregister / config
        changes / empty entries advance the index without an Update (the session
        rules themselves are C05: here the classification is an input [KSkip]).
-   A recover task sets the index to the snapshot's index (StateMachine.apply).
+   A recover task sets the index to the snapshot's index (StateMachine.apply). A stream task is
+   refused while the replica has not caught up with its on-disk state (ReadyToStream);
+   otherwise the image is labelled with the current index.
 
    Part 2 ([calls_ok]): the checker applied to call logs recorded from
    instrumented state machines on a live NodeHost (tie D) — index order,
    exactly-once, the overlap matrix and "nothing after Close". *)
 From Coq Require Import NArith List Bool.
-From DB Require Import Model.SMThreads.
+From DB Require Import Gen.GenC11 Model.SMThreads.
 Import ListNotations.
 Open Scope N_scope.
 
@@ -34,14 +36,19 @@ Inductive task :=
 | TEntries (l : list entry)
 | TSync
 | TSave
-| TRecover (ss_index : N).
+| TRecover (ss_index : N)
+| TStream.
 
 Record astate := mkA {
   a_index : N;           (* StateMachine.index *)
   a_init : N;            (* onDiskInitIndex *)
   a_disk : bool;
   a_calls : list (N * N);(* Update calls (index, payload), most recent first *)
-  a_err : N              (* 0 ok, 1 entry hole, 2 setApplied gap *)
+  a_err : N;             (* 0 ok, 1 entry hole, 2 setApplied gap *)
+  a_guard : bool;        (* ReadyToStream refuses while applied < onDiskInitIndex (GENERATED fact) *)
+  a_streams : list (option (N * N))
+                         (* stream tasks, most recent first: refused, or (label = SSMeta.Index,
+                            SSMeta.OnDiskIndex = what the streamed image contains) *)
 }.
 
 Definition last_index (l : list entry) : N :=
@@ -68,26 +75,35 @@ Definition handle_entry (st : astate) (e : entry) : astate :=
     let calls := if deliver then (e_index e, e_payload e) :: a_calls st else a_calls st in
     (* setApplied runs (deferred) AFTER the user's Update: on a gap the entry has already been
        handed to the state machine when the apply path panics *)
-    if negb (a_index st + 1 =? e_index e) then mkA (a_index st) (a_init st) (a_disk st) calls 2
-    else mkA (e_index e) (a_init st) (a_disk st) calls 0.
+    if negb (a_index st + 1 =? e_index e) then mkA (a_index st) (a_init st) (a_disk st) calls 2 (a_guard st) (a_streams st)
+    else mkA (e_index e) (a_init st) (a_disk st) calls 0 (a_guard st) (a_streams st).
 
 Definition handle_task (st : astate) (t : task) : astate :=
   if negb (a_err st =? 0) then st
   else match t with
   | TEntries l =>
     match entries_to_apply l (a_index st) with
-    | None => mkA (a_index st) (a_init st) (a_disk st) (a_calls st) 1
+    | None => mkA (a_index st) (a_init st) (a_disk st) (a_calls st) 1 (a_guard st) (a_streams st)
     | Some l' => fold_left handle_entry l' st
     end
   | TSync | TSave => st
   | TRecover ssi =>
     if ssi <=? a_index st then st   (* ErrSnapshotOutOfDate: ignored *)
-    else mkA ssi (a_init st) (a_disk st) (a_calls st) 0
+    else mkA ssi (a_init st) (a_disk st) (a_calls st) 0 (a_guard st) (a_streams st)
+  | TStream =>
+    (* node.canStream: StateMachine.ReadyToStream(); then StateMachine.stream: the image is taken
+       and labelled with (s.index, s.onDiskIndex) under one hold of the mutex *)
+    let ready := negb (a_disk st) || negb (a_guard st) || (a_init st <=? a_index st) in
+    let od := if a_disk st then N.max (a_init st) (match a_calls st with [] => 0 | c :: _ => fst c end) else 0 in
+    mkA (a_index st) (a_init st) (a_disk st) (a_calls st) 0 (a_guard st)
+        ((if ready then Some (a_index st, od) else None) :: a_streams st)
   end.
 
 Definition handle_tasks (st : astate) (q : list task) : astate := fold_left handle_task q st.
 
-Definition a_start (applied init : N) (disk : bool) : astate := mkA applied init disk [] 0.
+Definition a_start_g (g : bool) (applied init : N) (disk : bool) : astate := mkA applied init disk [] 0 g [].
+Definition a_start (applied init : N) (disk : bool) : astate := a_start_g ready_to_stream_checks_applied applied init disk.
+Definition streams_of (st : astate) : list (option (N * N)) := rev (a_streams st).
 
 (* the user-visible call sequence in call order *)
 Definition calls_of (st : astate) : list (N * N) := rev (a_calls st).
